@@ -123,6 +123,15 @@ def snapPart (c : Ctx) : List (String × J) :=
     [("snapshots", if c.snapshots.length > 0 then snapshotsJ c.snapshots else .obj [])]
   else []
 
+/-- Seeded variant (C09-w3m2): the presence of `snapshots` is read off the filled `Snapshots` map first
+("UpdateSnapshots adds a key for every included binding") and off the metadata only for the empty map.
+Not equivalent: `UpdateSnapshots` fills the map through the by-name fallback for a context whose own
+list is empty. -/
+def snapPartFromFilledMap (c : Ctx) : List (String × J) :=
+  if c.snapshots.length > 0 then [("snapshots", snapshotsJ c.snapshots)]
+  else if c.includeSnapshots.length > 0 || c.includeAll then [("snapshots", .obj [])]
+  else []
+
 /-- `MapV1` after the "snapshots" step: the chain of early returns, in the order of the code. -/
 def typePart (c : Ctx) : List (String × J) :=
   if c.btype = .validating then [("type", .str "Validating"), ("review", .str c.review)] else
@@ -247,6 +256,13 @@ inductive Origin where
   | kubeEvent (b : KBinding) (we : WatchEvent) (obj : J)   -- the object as the informer delivered it
   deriving Inhabited
 
+/-- The effective includeSnapshotsFrom list of the binding a context comes from (onStartup has none). -/
+def incOf : Origin → List String
+  | .onStartup => []
+  | .other b _ => b.inc
+  | .kubeSync b => b.inc
+  | .kubeEvent b _ _ => b.inc
+
 /-- The constructors of the controllers. -/
 def mkCtx : Origin → Ctx
   | .onStartup => { btype := .onStartup, binding := "onStartup" }
@@ -279,8 +295,11 @@ def includeOf (h : Hook) (t : BType) (name : String) : List String :=
 is fixed during the call here). -/
 def updateSnapshots (h : Hook) (cl : Cluster) (c : Ctx) : Ctx :=
   if h.kbs.isEmpty then c else      -- KubernetesController == nil
+  -- the list the context carries from its own binding wins; only an empty one falls back to the
+  -- lookup by binding type and name (which finds the *first* binding of that name)
+  let inc := if c.includeSnapshots.length = 0 then includeOf h c.btype c.binding else c.includeSnapshots
   -- newBc.Snapshots[name] = …, one assignment per included name (the printer keeps the last per key)
-  let snaps := (includeOf h c.btype c.binding).map (fun name => (name, (snapshotsFor h cl name).getD []))
+  let snaps := inc.map (fun name => (name, (snapshotsFor h cl name).getD []))
   let c := { c with snapshots := snaps }
   if c.btype = .kubernetes ∧ c.type = "Synchronization" then
     { c with objects := (snapshotsFor h cl c.binding).getD [] }
@@ -357,6 +376,13 @@ def expected (v : Version) (h : Hook) (cl : Cluster) (o : Origin) : J :=
   match v with
   | .v1 => J.mkObj (fieldsV1 h cl o)
   | .v0 => J.mkObj (fieldsV0 o)
+
+/-- The clause "`snapshots` is present exactly when the binding includes snapshots", for one item the
+implementation showed (`has` = the item has the key `snapshots`). v0 hooks have no includeSnapshotsFrom. -/
+def snapshotsClause (v : Version) (o : Origin) (has : Bool) : Bool :=
+  match v with
+  | .v1 => has == !(incOf o).isEmpty
+  | .v0 => has == false
 
 /-- The documented file: a JSON array, one item per context, in order. -/
 def expectedFile (v : Version) (h : Hook) (cl : Cluster) (os : List Origin) : J :=
